@@ -25,7 +25,8 @@ ASSUMPTIONS = [
     'builds are started through `all`, never with the hostile name as a goal',
     'backslash and a leading one-letter-plus-colon are never generated (separator / drive)',
 ]
-ROLES = ['srcfile', 'srcdir', 'stepout', 'copyout', 'exename', 'outdir', 'finddir', 'subdir']
+ROLES = ['srcfile', 'srcdir', 'stepout', 'copyout', 'exename', 'outdir', 'finddir', 'subdir',
+         'rootpath']
 
 
 def floors(tier):
@@ -92,6 +93,72 @@ def calibrate(backend, name):
         core.rmtree(root)
     _calib[key] = ok
     return ok
+
+
+def calibrate_root(backend, name):
+    """Can the tool build from/into directories whose *absolute path* contains
+    this name (written once into a variable, as a build file generator would)?"""
+    key = (backend, 'root', name)
+    if key in _calib:
+        return _calib[key]
+    base = core.mkscratch('calibr')
+    ok = False
+    try:
+        root = os.path.join(base, name + '.root')
+        sdir, bdir = os.path.join(root, 's'), os.path.join(root, 'b')
+        try:
+            os.makedirs(sdir)
+            os.makedirs(bdir)
+        except OSError:
+            _calib[key] = False
+            return False
+        env = core.base_env()
+        if backend == 'make':
+            for k, sv in enumerate(_make_variants(sdir)):
+                for f in os.listdir(bdir):
+                    os.remove(os.path.join(bdir, f))
+                # in a variable *value* only # needs a backslash; in prerequisites the
+                # expanded text is parsed again, so try the variable and the literal path
+                val = sdir.replace('$', '$$').replace('#', '\\#')
+                with open(os.path.join(bdir, 'Makefile'), 'w') as f:
+                    f.write('srcdir := %s\nall: out.txt\nout.txt: %s/in.txt\n\tcp -- %s out.txt\n'
+                            % (val, sv, _shq(os.path.join(sdir, 'in.txt')).replace('$', '$$')))
+                if _calib_run_at(bdir, ['make', '--no-print-directory'], 'out.txt',
+                                 os.path.join(sdir, 'in.txt'), env):
+                    ok = True
+                    break
+        else:
+            def nesc(s):
+                return re.sub(r'([$ :])', r'$\1', s)
+            if '|' not in name:
+                with open(os.path.join(bdir, 'build.ninja'), 'w') as f:
+                    f.write('srcdir = %s\nrule cp\n  command = cp -- $in $out\n'
+                            'build out.txt: cp %s/in.txt\ndefault out.txt\n'
+                            % (sdir.replace('$', '$$'), nesc(sdir)))
+                ok = _calib_run_at(bdir, [os.path.join(core.BIN, 'ninja')], 'out.txt',
+                                   os.path.join(sdir, 'in.txt'), env)
+    finally:
+        core.rmtree(base)
+    _calib[key] = ok
+    return ok
+
+
+def _calib_run_at(d, argv, T, Pabs, env):
+    with open(Pabs, 'w') as f:
+        f.write('1')
+    proj.settle()
+    rc, out = core.run(argv, cwd=d, env=env, timeout=60)
+    tp = os.path.join(d, T)
+    if rc != 0 or not os.path.isfile(tp):
+        return False
+    m1 = os.stat(tp).st_mtime_ns
+    proj.settle()
+    rc, out = core.run(argv, cwd=d, env=env, timeout=60)
+    if rc != 0 or os.stat(tp).st_mtime_ns != m1:
+        return False
+    proj.bump(Pabs, d)
+    rc, out = core.run(argv, cwd=d, env=env, timeout=60)
+    return rc == 0 and os.stat(tp).st_mtime_ns != m1
 
 
 def calibrate_depfile(backend, name):
@@ -436,6 +503,67 @@ def run_project(backend, names, res, isolate=True):
         core.rmtree(root)
 
 
+def run_rootpath(backend, name, res):
+    """A small project whose source and build directories live below a
+    directory named like this."""
+    base = core.mkscratch('c04r')
+    try:
+        root = os.path.join(base, name + '.root')
+        src, bld = os.path.join(root, 'src'), os.path.join(root, 'bld')
+        try:
+            proj.write_tree(src, {
+                'build.bfg': "c = copy_file('out.txt', 'in.txt')\n"
+                             "e = executable('prog', files=['main.c'])\ndefault(c, e)\n",
+                'in.txt': 'in\n', 'main.c': 'int main(void){return 0;}\n'})
+        except OSError:
+            res.exclude('file system refuses the name')
+            return
+        log = os.path.join(base, 'log')
+        extra = proj.stub_toolchain_env(log)
+        extra.update({'CP': 'vwrap-cp -f', 'VSTUB_ENVKEYS': 'NONE'})
+        env = core.base_env(extra)
+        res.ev('role:rootpath')
+        res.key([backend, 'rootpath', name], True)
+
+        def fail(what, **kw):
+            res.violate((backend, 'rootpath', what, 'pending'),
+                        dict(kw, backend=backend, role='rootpath', name=name, what=what,
+                             __case__={'backend': backend, 'names': [name]}))
+        rc, out = proj.configure(src, bld, backend, env=env)
+        if rc != 0:
+            return fail('configure-failed', output=out[-600:])
+        proj.settle()
+        rc, out = proj.build(bld, backend, [], env=env)
+        made = [p for p in ('out.txt', 'prog', 'prog.int/main.o')
+                if os.path.lexists(os.path.join(bld, p))]
+        if rc != 0 or len(made) != 3:
+            return fail('not-created', output=out[-700:], created=made)
+        proj.clear_log(log)
+        proj.settle()
+        rc, out = proj.build(bld, backend, [], env=env)
+        again = outputs_of(proj.read_log(log), bld)
+        if rc != 0 or again:
+            return fail('not-up-to-date-after-build', reran=again[:4], output=out[-300:])
+        for rel, must in (('in.txt', 'out.txt'), ('main.c', 'prog.int/main.o')):
+            proj.bump(os.path.join(src, rel), bld, src)
+            proj.clear_log(log)
+            rc, out = proj.build(bld, backend, [], env=env)
+            if rc != 0 or must not in outputs_of(proj.read_log(log), bld):
+                return fail('touch-not-noticed', touched=rel, output=out[-300:])
+            res.ev('touch:noticed')
+        rc, out = proj.build(bld, backend, ['clean'], env=env)
+        left = [p for p in ('out.txt', 'prog', 'prog.int/main.o')
+                if os.path.lexists(os.path.join(bld, p))]
+        if rc != 0 or left:
+            return fail('clean-left-file', left=left, output=out[-300:])
+        proj.bump(os.path.join(src, 'build.bfg'), bld, src)
+        rc, out = proj.build(bld, backend, [], env=env)
+        if rc != 0:
+            return fail('regenerate-or-rebuild-failed', output=out[-600:])
+    finally:
+        core.rmtree(base)
+
+
 _probe_cache = {}
 
 
@@ -443,12 +571,12 @@ def probe(backend, name):
     """(role, what) pairs that fail for a project made of this single name."""
     key = (backend, name)
     if key not in _probe_cache:
-        if not calibrate(backend, name):
-            _probe_cache[key] = frozenset()
-        else:
-            tmp = CaseResult()
+        tmp = CaseResult()
+        if calibrate(backend, name):
             run_project(backend, [name], tmp, isolate=False)
-            _probe_cache[key] = frozenset((m[1], m[2]) for m, w in tmp.violations)
+        if calibrate_root(backend, name):
+            run_rootpath(backend, name, tmp)
+        _probe_cache[key] = frozenset((m[1], m[2]) for m, w in tmp.violations)
     return _probe_cache[key]
 
 
@@ -485,11 +613,17 @@ def run_case(case):
                 backend, ''.join(sorted({c for c in n if c in SPECIALS})) or n))
             res.ev('calibrated:excluded')
     res.evaluations = len(admitted) or 1
+    for n in case['names']:
+        if calibrate_root(backend, n):
+            run_rootpath(backend, n, res)
+        else:
+            res.exclude('%s cannot build below a directory named with %s' % (
+                backend, ''.join(sorted({c for c in n if c in SPECIALS})) or n))
     if admitted:
         run_project(backend, admitted, res, isolate=False)
-        if len(admitted) == 1:
-            _probe_cache[(backend, admitted[0])] = frozenset(
-                (m[1], m[2]) for m, w in res.violations)
+    if len(case['names']) == 1:
+        _probe_cache[(backend, case['names'][0])] = frozenset(
+            (m[1], m[2]) for m, w in res.violations)
     # name the mechanism by the characters that reproduce it on their own
     fixed = []
     for mech, wit in res.violations:
